@@ -23,8 +23,8 @@
      (DocumentState::generate_diagnostics is a function of exactly these).
 
    State of /repo modelled: after `fix: an update with an older document version never replaces a newer
-   text` (DocumentState.version, the check sits AFTER the dictionary/linter refresh and BEFORE the
-   language test; updates from a file carry no version), `fix: the identifier dictionary of a source file
+   text` + `fix: an outdated update leaves the document state alone altogether` (DocumentState.version, the
+   check is the first thing done under the doc_state lock; updates from a file carry no version), `fix: the identifier dictionary of a source file
    survives later updates` (DocumentState.base_dict) and `fix: save_dict writes to a temporary file and
    renames it over the dictionary` (no truncated dictionary file is ever visible). *)
 Require Import Base.
@@ -318,10 +318,10 @@ Definition exec (i : instr) (l : locals) (w : world) : option (list instr * loca
       | Some t =>
         let d := mkdict (l_ud l) (l_fd l) 0 in
         let e0 := match lookup u (s_docs w) with Some e => e | None => new_entry (l_lang l) d (l_snap l) end in
-        let e1 := rebase d (l_snap l) e0 in
-        (* the version check: after the dictionary / linter refresh, before the language test *)
-        if stale (l_ver l) (e_ver e1) then Some ([], l, set_docs (upsert u e1 (s_docs w)) w) else
-        let e2 := bump (l_ver l) e1 in
+        (* the version check: the first thing done under the lock; an outdated update leaves doc_state alone *)
+        if stale (l_ver l) (e_ver e0) then Some ([], l, w) else
+        let e1 := bump (l_ver l) e0 in
+        let e2 := rebase d (l_snap l) e1 in
         match e_lang e2 with
         | None => Some ([], l, set_docs (remove u (s_docs w)) w)
         | Some lg =>
